@@ -7,16 +7,49 @@ def classify(case):
 
 SPEC = dict(
     prop="C08",
-    disabled="under construction",
+    gens=[dict(name="NoticeTypes", cmd=["go", "run", "-C", "translators", ".", "noticetypes"],
+               what="notice types accepted by NoticeType.Valid, maxNoticeKeyLength, and every non-test place that sets AddNoticeOptions.Time")],
     drivers=[
         dict(name="state", kind="main", pkg="./zzverif/c08",
-             n=dict(quick=500, thorough=12000),
+             n=dict(quick=300, thorough=12000),
              ev=dict(requires=["V.lib.Bytes", "V.models.Notices"], case_type="Notices.case",
                      mismatch="Notices.mismatch", monitor="Notices.monitor_fail")),
+        dict(name="api", kind="test", pkg="./daemon", run="TestVerifC08Api",
+             n=dict(quick=250, thorough=8000),
+             ev=dict(requires=["V.lib.Bytes", "V.models.Notices"], case_type="Notices.acase",
+                     mismatch="Notices.amismatch", monitor="Notices.amonitor_fail")),
     ],
     classify=classify,
-    rule="",
+    rule=("state: histories driven through the real state.State (AddNotice with state.MockTime readings, Notices): ALL "
+          "histories of length <= 3 (thorough: <= 5) over {add a same tick, add a clock -5 repeat-after 3, add b (other user) "
+          "+2, add a +1 repeat-after 10, poll client 0, poll client 1}; plus random histories of 3-30 operations: 1-4 "
+          "(user, type, key) combinations so notices reoccur, clock steps same tick / backwards / small / large in ns or ms, "
+          "repeat-after 0 / inside / outside the window / negative, 4% malformed adds (invalid type, empty or 256-258 byte key, "
+          "refresh-inhibit with key != -), 1 in 15 histories with explicit AddNoticeOptions.Time (compared with the model only), "
+          "1-4 simulated clients with random user/types/keys filters following the cursor protocol (After := greatest "
+          "last-repeated received, read from the JSON form). Observed after every op: the added notice (id, user, type, key, "
+          "last-repeated, last-occurred, occurrences) or error; the list returned to the client. "
+          "api: daemon.getNotices called in-package on a state filled through AddNotice: the complete cross product "
+          "uid {0,1000,1001,unidentifiable} x user-id {absent,1000,1001,0,x,`1000,1001`,empty} x users {absent,all,x,empty} on a "
+          "fixed state, plus random states and requests (uid, user-id in 16 valid/invalid spellings, users, types/keys comma "
+          "lists with blanks and invalid names, after valid/unparsable). Observed: HTTP status and notice ids in order. "
+          "Non-trivial = a history in which a notice reoccurred and a later poll returned something (state); a non-root "
+          "request that returned notices (api)."),
     exhaustive=dict(quick=True, thorough=True),
-    trusted_base=[],
-    assumptions=[],
+    trusted_base=[
+        "translators/noticetypes.go (go/ast): prints the case list of NoticeType.Valid, maxNoticeKeyLength and the non-test places that set AddNoticeOptions.Time",
+        "hand-written model coq/models/Notices.v of overlord/state/notices.go (AddNotice, ValidateNotice, NoticeFilter.matches, Notices) and of the user/filter logic of daemon/api_notices.go getNotices (main snapd socket only), tied by the differential runs (harness/overlay/zzverif/c08/main.go, harness/overlay/daemon/zz_verif_c08_test.go)",
+        "the polling-client protocol (After := greatest last-repeated received) is a model of the client described in AddNotice's comment; no client in the repository implements it",
+        "sort.Slice modelled as insertion sort; for equal last-repeated times (only possible with explicit Time) answers are compared after sorting by (last-repeated, id)",
+        "time.Time modelled as integer nanoseconds relative to a base instant; zero time as None; encoding/json of time.Time (RFC3339Nano) trusted to keep nanoseconds",
+        "daemon driver encodes ucrednet's RemoteAddr format (pid=..;uid=..;socket=..;) to choose the request uid; ucrednetGet itself is not modelled",
+    ],
+    assumptions=[
+        "PARTIAL: waiter wake-up is proved only in state-predicate form (C08_waiter_enabled_partial, C08_no_missed_wakeup); that sync.Cond.Broadcast wakes the goroutine blocked in WaitNotices is Go runtime behaviour and is neither modelled nor tested here",
+        "additions use the server clock (AddNoticeOptions.Time unset): with an explicit Time the property is false (C08_explicit_time_refuted); the translator checks on every run that no non-test code sets it (C08_no_explicit_time_call_site)",
+        "notice expiry (7 days after last-occurred, evaluated against the real wall clock in flattenNotices/Prune) is not modelled; drivers keep every mocked instant within hours of now",
+        "a client starts without a cursor and only ever uses a last-repeated time it received as After",
+        "getNotices is modelled for requests on the main snapd socket (every notice type viewable); the snap-socket interface/type restrictions (sanitizeNoticeTypesFilter with interfaces, noticeTypesViewableBySnap) belong to C26 and are not modelled; the timeout/WaitNotices branch is not exercised",
+        "state persistence of lastNoticeTimestamp across restarts (marshalledState) is not covered here (C05)",
+    ],
 )
